@@ -64,7 +64,7 @@ BUILT = {
    'Interleavings of the real goroutines are whatever the Go scheduler and -race produce in the run: sampled, not enumerated (DESIGN.md section 8). Trusts TLC and tv.',
    'TLA+ trace validation with a first-run history variable + race-detector build + fresh-process reruns (exploration of schedules)', '6 C09'),
  'C20': ('model_checking',
-   'TLC evaluates the wrapper machine (BklCli!WrapOp) on every argument vector of length <= MaxArgs over 17 argument kinds (among them one base name in two directories) on a fixed directory, asserts OnlyBklFilesChange / UntouchedByteForByte / FailingFileMeansNoExec, and every vector is run through the real bklb (symlinked as probeb) or kubectl-bkl with a probe program on PATH that records its argv and the content of file arguments. Random directories (layers in mixed formats) with random vectors of 0-8 arguments are run the same way and validated by TLC; substituted files are decoded by the independent decoder (Python json / PyYAML core schema / tomllib) of the argument\'s extension and compared with the evaluation computed by the specification.',
+   'TLC evaluates the wrapper machine (BklCli!WrapOp) on every argument vector of length <= MaxArgs over 19 argument kinds (among them one base name in two directories and a plain name whose parent comes from $parent) on a fixed directory, asserts OnlyBklFilesChange / UntouchedByteForByte / FailingFileMeansNoExec, and every vector is run through the real bklb (symlinked as probeb) or kubectl-bkl with a probe program on PATH that records its argv and the content of file arguments. Random directories (layers in mixed formats) with random vectors of 0-8 arguments are run the same way and validated by TLC; substituted files are decoded by the independent decoder (Python json / PyYAML core schema / tomllib) of the argument\'s extension and compared with the evaluation computed by the specification.',
    'Trusts the independent decoders and the probe script. Arguments that denote standard input (-.yaml) are not generated.',
    'TLA+ wrapper machine + TLC bounded argument-vector model with replay on the real binaries + TLC trace validation', '6 C20'),
 
@@ -91,7 +91,7 @@ BUILT = {
    'TLA+ evaluator with codecs as environment functions answered by independent implementations + TLC bounded transform universe with replay + trace validation', '6 C14'),
 
  'C04': ('model_checking',
-   'In the specification the format of a layer is not an input of any rule: the file system maps a path to parsed documents, the extension only names the decoder. FormatFree is therefore checked as refinement: TLC evaluates a numeric base layer x 20 upper layers ($match / $delete patterns with 32-bit-overflowing, 64-bit and float ids, same-value overrides of integers, floats, extremes and denormals, $repeat, document-level $match on numbers) x 3 third layers under ALL 3^n assignments of json/yaml/toml, asserts that every assignment equals the all-JSON writing, and each layout is run through the real bkl. Random numeric layer sets (1-3 layers, 1-2 documents) are written under all 3^n assignments, a third of them in a style variant (YAML flow, anchors/aliases, merge keys, plain number-like keys, markers with comments; TOML dotted keys, inline tables, +++ separators; CRLF line endings) that the independent decoder confirms to mean the same tree, and TLC validates every run against the format-free RunLayers. The document structure of a layer file is a specification of its own (BklStream: a machine over lines with the laws MarkerSpellingFree, CommentsFree, NothingLost, FormatFree): TLC enumerates every sequence of up to 4 (thorough: 6) lines over eight kinds of line, and the real Parser reads each as YAML and as TOML with LF and CRLF endings and must hold exactly the documents the specification reads. A corpus of 41 hand-written YAML / TOML / JSON texts (merge keys and lists of them, anchors, core-schema scalars, block scalars, tables, arrays of tables) is judged through the independent decoders.',
+   'In the specification the format of a layer is not an input of any rule: the file system maps a path to parsed documents, the extension only names the decoder. FormatFree is therefore checked as refinement: TLC evaluates a numeric base layer x 20 upper layers ($match / $delete patterns with 32-bit-overflowing, 64-bit and float ids, same-value overrides of integers, floats, extremes and denormals, $repeat, document-level $match on numbers) x 3 third layers under ALL 3^n assignments of json/yaml/toml, asserts that every assignment equals the all-JSON writing, and each layout is run through the real bkl. Random numeric layer sets (1-3 layers, 1-2 documents) are written under all 3^n assignments, a third of them in a style variant (YAML flow, anchors/aliases, merge keys, plain number-like keys, markers with comments; TOML dotted keys, inline tables, +++ separators; CRLF line endings) that the independent decoder confirms to mean the same tree, and TLC validates every run against the format-free RunLayers. The document structure of a layer file is a specification of its own (BklStream: a machine over lines with the laws MarkerSpellingFree, CommentsFree, NothingLost, FormatFree): TLC enumerates every sequence of up to 4 (thorough: 5) lines over eight kinds of line, and the real Parser reads each as YAML and as TOML with LF and CRLF endings and must hold exactly the documents the specification reads. A corpus of 41 hand-written YAML / TOML / JSON texts (merge keys and lists of them, anchors, core-schema scalars, block scalars, tables, arrays of tables) is judged through the independent decoders.',
    'Trusts the harness emitters (self-checked by the independent decoders for the style variants). Integral-valued floats are excluded (JSON cannot mark them); TOML layers are map-rooted and null-free, without date/time literals.',
    'TLA+ format-free resolver/evaluator + TLC bounded model over all format assignments with replay + trace validation of recorded runs', '6 C04'),
 }
